@@ -188,6 +188,8 @@ type hsHist struct {
 	feat    map[string]bool
 	space   int
 	maxT    uint64
+	maxRel  uint64 // largest relative peer time handed out so far
+	tmode   int    // peer clocks: 0 behind the responder's, 1 ahead of it, 2 mixed
 	forged  []uint64 // payload numbers that are altered copies of a captured genuine stage 1
 	certs   string   // which certificates the node holds / initiating version
 	v4only  bool     // the node holds a v1 certificate only: it cannot initiate to IPv6 addresses, the peers are IPv4
@@ -505,12 +507,32 @@ func (h *hsHist) ridx() uint32 {
 	return uint32(1 + h.c.Intn(6)) // small space: RemoteIndexes shadowing between peers
 }
 
-// time: around the times already in the hostmap, so that older / equal / newer all occur
+// hsFuture: 2200-01-01 in Unix nanoseconds - a peer clock far ahead of the responder's. The harness never derives a
+// peer time from time.Now() and never clamps it: the peer-reported time is an input.
+const hsFuture = uint64(7258118400) * 1000000000
+
+// time: a peer-reported handshake time around the ones already used in this history, so that older / equal / newer
+// all occur; in the responder's past (small numbers), in its future (hsFuture + small numbers), or mixed.
 func (h *hsHist) time() uint64 {
-	if h.c.Chance(0.05) {
+	if h.c.Chance(0.04) {
 		return 0
 	}
-	return uint64(h.c.Intn(int(h.maxT) + 3))
+	if h.c.Chance(0.01) {
+		return ^uint64(0)
+	}
+	rel := uint64(h.c.Intn(int(h.maxRel) + 3))
+	if rel > h.maxRel {
+		h.maxRel = rel
+	}
+	switch h.tmode {
+	case 1:
+		return hsFuture + rel
+	case 2:
+		if h.c.Chance(0.5) {
+			return hsFuture + rel
+		}
+	}
+	return rel
 }
 
 func (h *hsHist) underlay() uint64 {
@@ -786,7 +808,8 @@ func (h *hsHist) emit(cw *hx.CaseWriter, label string) {
 		peers = append(peers, p.addrs)
 	}
 	cw.Add(hx.App("CHs", h.cfgLit(), hx.List(h.steps), hsDumpLit(h.prev)), kind, n >= 2,
-		map[string]any{"my": h.my, "certificates": h.certs, "preferred": h.pref, "peers": peers, "ops": h.ops})
+		map[string]any{"my": h.my, "certificates": h.certs, "preferred": h.pref, "peers": peers, "ops": h.ops,
+			"peer_clock": []string{"past", "future", "mixed"}[h.tmode]})
 }
 
 // ---- fixed histories (corpus / boundaries), emitted first ---------------------------------------------
@@ -868,6 +891,37 @@ func hsCorpus(c *hx.Ctx, cw *hx.CaseWriter) {
 		h.opStage1(h.newPkt(p, 7, 2), 1, []uint32{15})  // older than an initiator primary: taken all the same
 		h.opStage1(h.newPkt(p, 8, 1), 1, []uint32{16})  // now the primary is a responder tunnel with time 2: refused
 		h.emit(cw, "corpus-time-order")
+	}
+	// 2b. the same with peer clocks AHEAD of the responder's (peer times in the responder's future, up to 2^64-1) and
+	//     mixed: a newer stage 1 is accepted first, then an older one (smaller peer time, different bytes) arrives later:
+	//     it must be refused as too old whatever the responder's own clock says; the stored time is the peer's
+	for _, base := range []uint64{hsFuture, ^uint64(0) - 20} {
+		h := newHsHist(c, []uint64{1}, false, 60)
+		h.tmode = 1
+		p := h.addPeer(2, hsA(3))
+		h.opStage1(h.newPkt(p, 1, base+10), 1, []uint32{10}) // accepted: primary with peer time base+10
+		h.opStage1(h.newPkt(p, 2, base+5), 2, []uint32{11})  // older, arrives later: refused
+		h.opStage1(h.newPkt(p, 3, base+10), 1, []uint32{12}) // equal: refused
+		h.opStage1(h.newPkt(p, 4, base+9), 3, []uint32{13})  // older again
+		h.opStage1(h.newPkt(p, 5, base+11), 1, []uint32{14}) // newer: taken
+		h.opStage1(h.newPkt(p, 6, base+10), 1, []uint32{15}) // older than the new primary: refused
+		h.opStage1(h.newPkt(p, 7, 7), 1, []uint32{16})       // a time in the responder's past: older, refused
+		h.emit(cw, "corpus-time-order-future")
+	}
+	{
+		h := newHsHist(c, []uint64{1}, false, 60)
+		h.tmode = 2
+		p := h.addPeer(2, hsA(3))
+		q := h.addPeer(2, hsA(4))
+		h.opStage1(h.newPkt(p, 1, 100), 1, []uint32{10})          // past clock
+		h.opStage1(h.newPkt(p, 2, hsFuture+1), 1, []uint32{11})   // future: newer, taken
+		h.opStage1(h.newPkt(p, 3, 200), 1, []uint32{12})          // past again: older, refused
+		h.opStage1(h.newPkt(p, 4, hsFuture), 1, []uint32{13})     // future but older than the primary: refused
+		h.opStage1(h.newPkt(q, 5, hsFuture+50), 1, []uint32{14})  // another peer, far ahead
+		h.opStage1(h.newPkt(q, 6, hsFuture+49), 2, []uint32{15})  // its delayed older message: refused
+		h.opDelMain(3)
+		h.opStage1(h.newPkt(q, 7, hsFuture+49), 2, []uint32{16})  // tunnel gone: taken
+		h.emit(cw, "corpus-time-order-mixed")
 	}
 	// 3. wrong responder twice (second underlay, then the same again), then the right host; self certificates
 	{
@@ -1013,6 +1067,7 @@ func runHsmgr(c *hx.Ctx, check string) {
 			space = 6 + c.Intn(8)
 		}
 		h := newHsHistCerts(c, wcfg, space)
+		h.tmode = c.Intn(3)
 		h.makePeers()
 		n := 35 + c.Intn(16)
 		for j := 0; j < n; j++ {
